@@ -30,6 +30,10 @@ namespace vio
     {
       return std::stoll(next());
     }
+    double d()
+    {
+      return std::stod(next());
+    }
     std::vector<long long> ints(std::size_t n)
     {
       std::vector<long long> v(n);
